@@ -14,9 +14,9 @@
    full round" no fitting request is still pending) plus the measure that bounds the number of phases; that every
    fireable/running job is eventually notified and that every notification is followed by a full round are ASSUMED (the
    shape of [phases_seq]), the second being what asyncio's notify_all provides and what the oracle watches on real runs.
-   Refuted: C12_rollback_blocks_refuted (known finding: a rolled-back job keeps the inner slot of its step). *)
+   C12_rollback_frees_inner_slot: the former finding (a rolled-back job kept the inner slot of its step) after its fix. *)
 From Coq Require Import List Bool ZArith NArith Lia.
-From SF Require Import Base.Str Hardware.Model Hardware.Proofs Sched.Model Sched.Proofs Sched.History Sched.Quiesce Sched.Eventually Sched.Stacked Sched.StackedHist Sched.StackedQuiesce Sched.Wake Sched.Witness Sched.Examples.
+From SF Require Import Base.Str Hardware.Model Hardware.Proofs Sched.Model Sched.Proofs Sched.History Sched.Quiesce Sched.Eventually Sched.Stacked Sched.StackedHist Sched.StackedQuiesce Sched.Wake Sched.WakeStacked Sched.Witness Sched.Examples.
 Import ListNotations.
 Local Open Scope string_scope. Local Open Scope list_scope.
 
@@ -87,7 +87,7 @@ Proof. exact wake_round_quiescent. Qed.
    in between: evaluating it there again returns "not granted".  (Proof: reservations and the jobs counted by _get_running_jobs only grow
    along the round; by C12_valid_iff_fits / C12_slot_validity validity is antitone in them.)  Together with
    C12_valid_iff_fits: at the quiescent point no waiting request has enough free capacity on enough locations.
-   Stacked locations are outside this theorem (C12_rollback_blocks_refuted: false for stacked slot locations). *)
+   Stacked locations are covered by C12_quiescent_stacked. *)
 Theorem C12_quiescent : forall locs,
   (forall l1 l2, In l1 locs -> In l2 locs -> lv_name l1 = lv_name l2 -> l1 = l2) ->
   (forall l cap, In l locs -> lv_cap l = Some cap -> wfr cap /\ In "/" (mounts cap)) ->
@@ -106,7 +106,8 @@ Proof. exact round_quiescent. Qed.
    reservations): along a wake-up round the ledger of every level and the job lists that _get_running_jobs counts only
    grow, validity of every level is antitone in them, so a request short of valid locations at its turn is still short
    at the end of the round.  This is about re-evaluation being stable; it does not say that "short of valid locations"
-   coincides with "not enough free capacity" on stacked slot levels — there it does not (C12_rollback_blocks_refuted). *)
+   coincides with "not enough free capacity" on stacked slot levels — there it did not before the fix of the ROLLBACK clean-up (C12_rollback_frees_inner_slot); the ROLLBACK/same-step/lower-tag rule of
+   _get_running_jobs is still part of validity. *)
 Theorem C12_quiescent_stacked : forall locs,
   (forall l1 l2, In l1 locs -> In l2 locs -> lv_name l1 = lv_name l2 -> l1 = l2) ->
   (forall l cap, In l locs -> lv_cap l = Some cap -> wfr cap /\ In "/" (mounts cap)) ->
@@ -243,7 +244,8 @@ Proof. split; [exact ev_conformant|exact ev_phases]. Qed.
    `retry_delay` timers (a timeout wakes a waiter without notification: only adds evaluations); cancellation of a parked
    task; several targets per request (one task per target sharing JobContext.scheduled); asyncio's own implementation of
    Lock/Condition (FIFO hand-over is assumed as documented; the permuting-loop runs exercise other wake orders, for
-   which nothing in the proofs depends on the order).  Composition with C12_quiescent is on the flat domain. *)
+   which nothing in the proofs depends on the order).  Composition with C12_quiescent on the flat domain, with C12_quiescent_stacked
+   on chains of stacked levels (C12_no_lost_wakeup_stacked_partial). *)
 Theorem C12_wake_refines_round_partial : forall prog l c c',
   QInv c -> execs prog c l = Some c' -> no_notify prog l ->
   (exists g, wake_round (sched c) (map (req_of prog) (evals l)) = Ok (sched c', g)) /\
@@ -289,6 +291,40 @@ Theorem C12_quiescent_lock_free : forall prog l c,
   execs prog c0 l = Some c -> quiescent c -> holder c = None /\ lockq c = [].
 Proof. exact quiescent_lock_free. Qed.
 
+(* The same over chains of stacked levels (hardware or slot levels, outer or inner; arbitrarily many tasks, jobs and
+   locations; domain = [conformant2] of Props/C10.v: one location per allocation, coherent releases): composition of the
+   protocol invariant with C12_quiescent_stacked. *)
+Theorem C12_parked_not_grantable_stacked : forall prog locs,
+  (forall l1 l2, In l1 locs -> In l2 locs -> lv_name l1 = lv_name l2 -> l1 = l2) ->
+  (forall l cap, In l locs -> lv_cap l = Some cap -> wfr cap /\ In "/" (mounts cap)) ->
+  forall l c t w,
+  execs prog c0 l = Some c -> conformant2 locs init (fun _ => []) (gpre c ++ ground c) ->
+  pcs c t = PWaiting -> prog t = KReq w ->
+  exists vn, (exists pre post s_i, ground c = pre ++ ev_of w :: post /\ run (gbase c) pre = Ok s_i /\
+                                  try_waiter s_i w = Ok (s_i, vn, false)) /\
+    ((length vn < w_n w)%nat -> forall v', valid_locations (sched c) (w_reqs w) (w_job w) (w_cands w) = Ok v' ->
+       (length v' < w_n w)%nat /\ try_waiter (sched c) w = Ok (sched c, map chain_name v', false)).
+Proof. exact parked_not_grantable_stacked. Qed.
+
+Theorem C12_no_lost_wakeup_stacked_partial : forall prog locs,
+  (forall l1 l2, In l1 locs -> In l2 locs -> lv_name l1 = lv_name l2 -> l1 = l2) ->
+  (forall l cap, In l locs -> lv_cap l = Some cap -> wfr cap /\ In "/" (mounts cap)) ->
+  forall l c,
+  execs prog c0 l = Some c -> conformant2 locs init (fun _ => []) (gpre c ++ ground c) -> quiescent c ->
+  forall t w, prog t = KReq w -> pcs c t <> PStart -> pcs c t <> PDone ->
+  pcs c t = PWaiting /\ In t (waitq c) /\
+  exists vn, (exists pre post s_i, ground c = pre ++ ev_of w :: post /\ run (gbase c) pre = Ok s_i /\
+                                  try_waiter s_i w = Ok (s_i, vn, false)) /\
+    ((length vn < w_n w)%nat -> forall v', valid_locations (sched c) (w_reqs w) (w_job w) (w_cands w) = Ok v' ->
+       (length v' < w_n w)%nat /\ try_waiter (sched c) w = Ok (sched c, map chain_name v', false)).
+Proof. exact no_lost_wakeup_stacked. Qed.
+
+Example C12_no_lost_wakeup_stacked_hypotheses_met :
+  conformant2 st_locs init (fun _ => []) sk_hist /\
+  exists c, execs sk_prog c0 sk_run = Some c /\ quiescent c /\ pcs c 1%nat = PWaiting /\ waitq c = [1%nat] /\
+            gpre c ++ ground c = sk_hist.
+Proof. split; [exact sk_conformant|exact sk_execution]. Qed.
+
 (* hypotheses met: /s/0 granted; /s/9 (9 cores on a 4-core location) parks; /s/0 COMPLETED wakes it; it re-evaluates and
    parks again; the state is quiescent and the projected history is conformant *)
 Example C12_no_lost_wakeup_hypotheses_met :
@@ -297,12 +333,15 @@ Example C12_no_lost_wakeup_hypotheses_met :
             gpre c ++ ground c = wk_hist.
 Proof. split; [exact wk_conformant|exact wk_execution]. Qed.
 
-(* known finding: after ROLLBACK of /s0/1 nothing is fireable or running, yet /s0/0.9 finds no valid location *)
-Theorem C12_rollback_blocks_refuted :
-  exists st, run init rollback_history = Ok st /\ no_active (Ok st) = true /\
-    attempt st "/s0/0.9" slot_cands (slot_reqs 2 4) 1 [] = Ok (st, [], false) /\
-    attempt st "/s1/0" slot_cands (slot_reqs 2 4) 1 [] <> Ok (st, [], false).
-Proof. eexists. vm_compute. repeat split; try reflexivity. discriminate. Qed.
+(* FIXED finding (known/C12.txt: fixed): before the fix notify_status(ROLLBACK) removed the job from the job list of the
+   OUTER level only; the rolled-back /s0/1 stayed listed on the wrapped 1-slot host and blocked /s0/0.9 of the same step
+   although nothing was fireable or running.  With the clean-up walking every stacked level (as _allocate_job does) the
+   same history leaves the host's list empty and /s0/0.9 is granted. *)
+Theorem C12_rollback_frees_inner_slot :
+  exists st st', run init rollback_history = Ok st /\ no_active (Ok st) = true /\
+    lookup "host/h0" (locjobs st) = Some [] /\
+    attempt st "/s0/0.9" slot_cands (slot_reqs 2 4) 1 [] = Ok (st', ["d0l0"], true).
+Proof. eexists. eexists. vm_compute. repeat split; reflexivity. Qed.
 
 Print Assumptions C12_grant_only_valid.
 Print Assumptions C12_granted_when_exactly_enough_partial.
@@ -327,4 +366,6 @@ Print Assumptions C12_wake_invariants.
 Print Assumptions C12_parked_not_grantable.
 Print Assumptions C12_no_lost_wakeup_partial.
 Print Assumptions C12_quiescent_lock_free.
-Print Assumptions C12_rollback_blocks_refuted.
+Print Assumptions C12_parked_not_grantable_stacked.
+Print Assumptions C12_no_lost_wakeup_stacked_partial.
+Print Assumptions C12_rollback_frees_inner_slot.
